@@ -115,3 +115,22 @@ def algo_cfgs(tier, base_id=300000, algos=None, n=100):
                     prm["base"] = rnd.choice(["T_HOO", "HCT", "VHCT"])
                 cfgs.append({"id": i, "algo": algo, "kind": kind, "K": K, "D": D, "box": box, "n": n, "T": n, "prm": prm, "pattern": rnd.choice(["noisy", "neg", "tied", "const", "peak"]), "seed": rnd.randrange(1 << 30)})
     return cfgs
+
+
+def repo_test_traces(chk, tier, base_id=9000000):
+    """the repository's own tests as a trace source: run them under the /verif pytest plugin
+    (no file of the repository changes), return the recorded top-level sessions"""
+    import json, os, subprocess, sys
+    out = os.path.join(chk.wd, "repo_tests_traces.json")
+    files = ["PyXAB/tests/test_algos"] if tier != "quick" else ["PyXAB/tests/test_algos/test_%s.py" % a for a in ("HOO", "SOO", "DOO", "Zooming", "SequOOL", "StoSOO", "POO")]
+    env = dict(os.environ, PYXAB_VERIF_TRACE="1", PYXAB_VERIF_TRACE_OUT=out, PYTHONPATH="/verif:/repo", PYXAB_VERIF_TRACE_MAXCALLS="200" if tier == "quick" else "600")
+    p = subprocess.run([sys.executable, "-m", "pytest", "-q", "-x", "-p", "no:cacheprovider", "-p", "harness.pytest_trace_plugin"] + files, cwd="/repo", env=env, stdout=subprocess.PIPE, stderr=subprocess.STDOUT, text=True, timeout=3000)
+    if not os.path.exists(out):
+        raise C.Machinery("repository tests under the trace plugin produced no traces: " + p.stdout[-1500:])
+    trs = json.load(open(out))
+    for i, t in enumerate(trs):
+        if "machinery" in t:
+            raise C.Machinery("plugin failed: " + t["machinery"])
+        t["id"] = base_id + i
+    chk.notes["repository_tests_as_trace_source"] = {"pytest_tail": p.stdout.strip().splitlines()[-1] if p.stdout.strip() else "", "sessions": len(trs)}
+    return trs
